@@ -212,6 +212,13 @@ impl Check for DatagramSockets {
         400
     }
     fn run(&self, e: &mut Entropy, ctx: &mut Ctx) -> Result<(), Failure> {
+        run_dgram(e, ctx).map(|_| ())
+    }
+}
+
+/// One generated datagram-socket case; returns the frames seen on the wire (C18 verifies their checksums).
+pub fn run_dgram(e: &mut Entropy, ctx: &mut Ctx) -> Result<Vec<FrameRec>, Failure> {
+    {
         // plan first
         let fault_kind = e.weighted(&[3, 2, 2, 2]); // none, drops, dups, both
         let fault_pos: Vec<usize> = (0..e.choose(5)).map(|_| e.choose(60)).collect();
@@ -421,7 +428,7 @@ impl Check for DatagramSockets {
             ctx.class("with_arp");
         }
         ctx.measure("datagrams_returned", got.len() as f64);
-        Ok(())
+        Ok(frames)
     }
 }
 
